@@ -240,7 +240,7 @@ mod imp {
     pub fn replay(case: &Value) -> Vec<Violation> {
         let name = case["vector"].as_str().unwrap_or("");
         let file = name.split("::").next().unwrap_or("");
-        let path = format!("/repo/tests/pectra_devnet5/state_tests{file}");
+        let path = format!("/repo/tests/pectra_devnet5/state_tests/{}", file.trim_start_matches('/'));
         let Ok(s) = std::fs::read_to_string(&path) else { return vec![] };
         let Ok(suite) = serde_json::from_str::<TestSuite>(&s) else { return vec![] };
         let mut out = vec![];
